@@ -135,6 +135,7 @@ static void do_switch(int to, const char *why) {
   std::string proj = vfmt("%d>%d@%d:%s", from, to, from >= 0 ? g_t[from].op : -1, fn.c_str());
   g_ileave_hash = fnv1a(proj, g_ileave_hash);
   g_cur = to;
+  plan_next_decision();      // everything is decided before the baton moves: after sem_post this thread touches nothing shared
   sem_post(&g_t[to].sem);
 }
 static void wait_my_turn(int me) { while (sem_wait(&g_t[me].sem) < 0 && errno == EINTR) {} }
@@ -155,7 +156,7 @@ static void decision_point(int me) {
   } else due = true;
   if (due && wanted != me) {
     int to = pick_other(me, wanted);
-    if (to >= 0) { do_switch(to, "preempt"); wait_my_turn(me); }
+    if (to >= 0) { do_switch(to, "preempt"); wait_my_turn(me); return; }
   }
   plan_next_decision();
 }
@@ -165,7 +166,7 @@ static inline void tick(int me) {
     decision_point(me);
   } else if (g_pending_bias) {
     g_pending_bias = false;
-    if (!g_explicit && g_bias && g_srng.chance(1, 2)) {
+    if (!g_explicit && g_bias && g_shared_write_preempt < 12 && g_srng.chance(1, 2)) {
       int to = pick_other(me, -1);
       if (to >= 0) { g_shared_write_preempt++; do_switch(to, "after-shared-write"); wait_my_turn(me); }
     }
@@ -183,7 +184,6 @@ static void yield_forced(int me, const char *why) {
     g_cur = -1; sem_post(&g_main_sem); return;
   }
   do_switch(to, why);
-  plan_next_decision();
 }
 
 // ------------------------------------------------------------------ regions
@@ -442,7 +442,6 @@ void thr::run_tasks(int n, void (*body)(int, void *), void *arg, size_t) {
   if (g_explicit) { if (!g_explicit_sw.empty() && g_explicit_sw[0].first == 0) { first = g_explicit_sw[0].second; g_explicit_pos = 1; if (first < 0 || first >= n) first = 0; } }
   else first = (int)g_srng.below((uint64_t)n);
   do_switch(first, "start");
-  plan_next_decision();
   while (sem_wait(&g_main_sem) < 0 && errno == EINTR) {}
   g_active = false;
   for (int t = 0; t < n; t++) pthread_join(g_t[t].th, nullptr);
